@@ -1,5 +1,6 @@
 import CwMt.Driver.Kv
 import CwMt.Driver.Wasm
+import CwMt.Driver.Bank
 /-
   cwmt-driver <slice> : reads ops lines on stdin, answers one line per op on stdout.
   `case <id>` resets the slice state and is echoed.
@@ -14,6 +15,7 @@ structure Slice where
 def slices : List (String × Slice) :=
   [ ("overlay", { σ := Stack, init := .root [], step := stepOverlay }),
     ("views", { σ := Store Val, init := [], step := stepViews }),
+    ("bank", { σ := BankSt, init := {}, step := stepBank }),
     ("wasm", { σ := WState, init := {}, step := fun st toks => stepWasm st (" ".intercalate toks) }) ]
 
 partial def loop (sl : Slice) (h : IO.FS.Stream) (out : IO.FS.Stream) (st : sl.σ) : IO Unit := do
